@@ -21,7 +21,9 @@
 (* all of them are monotone, so every ordering rule is a state invariant.    *)
 EXTENDS Integers, Sequences, FiniteSets
 
-CONSTANT OwedSigQuirk   \* observation O3 (see Owed below) is admitted as a terminal shape iff TRUE
+CONSTANT OwedSigQuirk   \* the named deviation O3 / finding F17 (see Owed below) is admitted iff TRUE; FALSE since /repo 1abb1ae
+
+CONSTANT StrandQuirk    \* the named deviation O4 (see Stranded below) is admitted iff TRUE
 
 VARIABLES
   pl,   \* pl[p] = [dir, kind, amt, inamt]: the payment (amt delivered, inamt = amt + Bob's fee as offered to Bob)
@@ -45,6 +47,8 @@ NoHist  == [upLocked  |-> FALSE,   \* the incoming add was locked in at Bob
             upPre     |-> "-",     \* ... with this preimage
             upFail    |-> FALSE,   \* Bob has sent update_fail for the incoming HTLC
             dbl       |-> FALSE,   \* Bob has offered a second outgoing HTLC for p while/after the first was committed
+            strand    |-> FALSE,   \* O4: the incoming link was restarted (the switch was not) while the locked-in add of p
+                                   \* was on its way from that link to the forwarder
             owed      |-> FALSE]   \* O3: an update of p sits in its receiver's commitment only, and the signature the
                                    \* receiver owes for it was cut off by a restart (nothing re-sends it until the
                                    \* channel's next update)
@@ -102,14 +106,24 @@ FailedBack(p) == /\ st[p].ia = "locked" /\ st[p].ir = "removed" /\ st[p].irk = "
 Held(p)       == /\ pl[p].kind \in {"hold", "hold_settle", "hold_cancel"}
                  /\ st[p].ia = "locked" /\ st[p].oa = "locked" /\ st[p].ir = "none" /\ st[p].or = "none"
 
-\* Observation O3 (real lnd behaviour, reported as a finding): a link signs "because it owes a commitment"
-\* only while handling a commit_sig or a revoke_and_ack.  If both links of a channel restart after one side
-\* has revoked but before it signed back, that side resumes with no local update pending and never sends the
-\* owed signature: the update stays on one commitment until some other update moves the channel.
+\* Named deviation O3 (finding F17, found by this check, repaired in /repo 1abb1ae): a link signed "because it
+\* owes a commitment" only while handling a commit_sig or a revoke_and_ack.  If both links of a channel restarted
+\* after one side had revoked but before it signed back, that side resumed with no local update pending and
+\* never sent the owed signature: the update stayed on one commitment until some other update moved the channel.
+\* Kept as a switch: with TRUE the pre-repair behaviour validates (mutation control mutations/C08/revert_F17.diff).
 Owed(p) == OwedSigQuirk /\ hs[p].owed
 NoneOwed == \A p \in P : ~hs[p].owed
 
-NothingDangling == \A p \in P : Untouched(p) \/ Settled(p) \/ FailedBack(p) \/ Held(p) \/ Owed(p)
+\* Named deviation O4 (real lnd behaviour, found by this check): Switch.ForwardPackets commits the circuit of a
+\* locked-in add (CommitCircuits) and then hands the packet to the forwarder with routeAsync, which gives up when
+\* the SENDING link is being stopped.  A reconnect of the incoming channel in that window loses the packet while
+\* its circuit stays committed; the restarted link forwards the add again, and CommitCircuits drops it as a
+\* duplicate ("no keystone, not loaded from disk: the packet is still in the outgoing mailbox" - it is not).  The
+\* incoming HTLC then stays locked in and unanswered until the switch itself restarts (or the HTLC times out).
+Stranded(p) == /\ StrandQuirk /\ hs[p].strand
+               /\ st[p].ia = "locked" /\ st[p].oa = "none" /\ st[p].ir = "none" /\ st[p].or = "none"
+
+NothingDangling == \A p \in P : Untouched(p) \/ Settled(p) \/ FailedBack(p) \/ Held(p) \/ Owed(p) \/ Stranded(p)
 
 RECURSIVE Sum(_, _)
 Sum(f, S) == IF S = {} THEN 0 ELSE LET x == CHOOSE y \in S : TRUE IN f[x] + Sum(f, S \ {x})
